@@ -475,6 +475,79 @@ def g_selection(tier, seed):
     return out
 
 
+class PermSet:
+    """stand-in for the built-in set inside the instrumented reader: same contents, iteration order dictated by the harness
+    (a Python set of strings iterates in an order that depends on the hash seed: every order must give the same answer)"""
+    ORDER = [None]
+
+    def __init__(self, it=()):
+        self.items = []
+        for x in it:
+            self.add(x)
+
+    def add(self, x):
+        if x not in self.items:
+            self.items.append(x)
+
+    def __len__(self):
+        return len(self.items)
+
+    def __contains__(self, x):
+        return x in self.items
+
+    def __iter__(self):
+        order = PermSet.ORDER[0]
+        if order is None:
+            return iter(list(self.items))
+        return iter(sorted(self.items, key=lambda n: order.index(n) if n in order else len(order)))
+
+
+def g_selection3(tier, seed):
+    """three nested sub-grids (3600", 1800", 900") that all contain the query point: for every file order and every iteration order of
+    the set of candidate names the nodes read belong to the finest one"""
+    import itertools
+    nr, tr = _mods()
+    out = []
+    parent = shape('PAR', 0, 0, 3600, 3600, 5, 5)
+    mid = shape('MID', 3600, 3600, 1800, 1800, 5, 5, 'PAR')
+    child = shape('CHI', 3600, 3600, 900, 900, 5, 5, 'MID')
+    file_orders = [(parent, mid, child), (child, parent, mid)] if tier == 'quick' else list(itertools.permutations((parent, mid, child)))
+    for sgs in file_orders:
+        sgs = list(sgs)
+        m0 = Model(sgs)
+        with swap_globals(nr, **install(nr, m0)):
+            grid = nr.read_ntv2_file('virtual.gsb')
+        ci = sgs.index(child)
+        for it_order in itertools.permutations(('PAR', 'MID', 'CHI')):
+            def run():
+                la, lo = fresh_real('la2', 3600, 7199), fresh_real('lo2', 3600, 7199)
+                m = Model(sgs)
+                PermSet.ORDER[0] = list(it_order)
+                try:
+                    with swap_globals(nr, set=PermSet, **install(nr, m)):
+                        r = nr.interpolate_ntv2(grid, la / 3600, lo / -3600, 'bilinear')
+                finally:
+                    PermSet.ORDER[0] = None
+                return m, r
+            paths, st = explore(run, max_paths=20, loop_bound=4)
+            mk = lambda env: {'levels': 3}
+            label = 'file order %s, candidates visited in the order %s' % ([s['name'] for s in sgs], list(it_order))
+            for p in paths:
+                if p.kind == 'cut':
+                    out.append(ob.res('O4', label, 'inconclusive', [], 'path cut: %s' % p.value))
+                    continue
+                if p.kind != 'return':
+                    out.append(ob.ground_violation('O4', '%s: interpolation %s: %r' % (label, p.kind, p.value), PID, 'O4:selection3',
+                                                   'oracles.c17:selection3', mk({})))
+                    continue
+                m, r = p.value
+                inblock = lambda pos: z3.And(toz(pos) >= m0.bases[ci], toz(pos) < m0.bases[ci] + 16 * 25)
+                g = z3.And(z3.BoolVal(len(m.node_reads) > 0), *[inblock(x) for x in m.node_reads])
+                out.append(ob.decide_goal('O4', '%s: a point inside three nested sub-grids is interpolated from the finest' % label,
+                                          ob.path_conds(p), g, pid=PID, oracle='oracles.c17:selection3', args_from_model=mk, key='O4:selection3'))
+    return out
+
+
 # --- O5 ntv2_2d -------------------------------------------------------------------------------------------
 def g_2d(tier, seed):
     nr, tr = _mods()
@@ -524,4 +597,4 @@ def g_2d(tier, seed):
 
 def groups(tier):
     return [('header', g_header), ('bilinear', g_interp('bilinear')), ('bicubic', g_interp('bicubic')), ('bicubic_wiring', g_bicubic_wiring),
-            ('bicubic_lemma', g_bicubic_lemma), ('selection', g_selection), ('ntv2_2d', g_2d)]
+            ('bicubic_lemma', g_bicubic_lemma), ('selection', g_selection), ('selection3', g_selection3), ('ntv2_2d', g_2d)]
